@@ -14,7 +14,7 @@ from pyvc.sym import And, Or, Not, Implies, Iff, Ite, deep_eq, Sym
 from pyvc.containers import SDict
 
 PROPERTY = 'C18'
-FUNCTIONS = ['yastn.krylov._krylov:expmv', 'yastn.tensor._krylov:expand_krylov_space']
+FUNCTIONS = ['yastn.krylov._krylov:expmv', 'yastn.tensor._krylov:expand_krylov_space', 'yastn.krylov._krylov:eigs', 'yastn.krylov._krylov:lin_solver']
 ASSUMPTIONS = [
     "floats treated as reals; np.log and x**y with symbolic operands are unconstrained reals (positive for a positive base); "
     "np.ceil/np.floor are integers within one unit of their argument",
@@ -24,7 +24,8 @@ ASSUMPTIONS = [
 ]
 NOT_DECIDED = [
     "expmv returns exp(tF)v to its tolerance; eigs Ritz pairs exact/variational; lin_solver residual (floating point, LAPACK/expm)",
-    "eigs and lin_solver index arithmetic not brought under contract in this round",
+    "eigs / lin_solver: only the pairing and dimension bookkeeping is proved (which basis vectors, which column with which value, true residual "
+    "of the returned vector); that Ritz pairs are exact / variational is LAPACK + floating point",
 ]
 
 
@@ -404,6 +405,235 @@ def h_expand(V, lenV, ncv, hermitian):
         V.check('orthogonalisation-uses-one-amplitude-per-vector', a.n_amp == a.n_vec)
 
 
+# ---------------------------------------------------------------------------------------------
+#  eigs / lin_solver: pairing and dimension bookkeeping on ghost linear algebra
+# ---------------------------------------------------------------------------------------------
+
+class LV:
+    """ ghost vector with provenance """
+    yastn_dtype = 'float64'
+    device = 'cpu'
+
+    def __init__(self, world, tag):
+        self.world, self.tag = world, tag
+        self.config = world['cfg']
+
+    def norm(self):
+        self.world['last_norm_of'] = self.tag
+        if not self.world.get('nonzero', True):
+            return 0.0
+        r = sym.opaque_real('norm')
+        sym.ctx().assume(r > 0)
+        return r
+
+    def __truediv__(self, x):
+        return LV(self.world, ('scaled', self.tag))
+
+    def __sub__(self, other):
+        return LV(self.world, ('sub', self.tag, other.tag))
+
+    def add(self, *others, amplitudes=None, **kw):
+        return LV(self.world, ('lincomb', (self.tag,) + tuple(o.tag for o in others), amplitudes))
+
+    def expand_krylov_space(self, f, tol, ncv, hermitian, V, H=None, **kw):
+        w = self.world
+        w['expand_args'] = dict(tol=tol, ncv=ncv, hermitian=hermitian, lenV=len(V), first=V[0].tag)
+        out = list(V) + [LV(w, ('krylov', j)) for j in range(len(V), w['lenV'])]
+        Hd = LH(w)
+        for j in range(w['lenV']):
+            Hd.store[(j, j)] = ('h', j, j)
+        if not w['happy']:
+            Hd.store[(w['lenV'] - 1, w['lenV'] - 2)] = ('h', w['lenV'] - 1, w['lenV'] - 2)
+        return out, Hd, w['happy']
+
+
+class LH:
+    """ Hessenberg dictionary: records what the caller reads and writes """
+    def __init__(self, world):
+        self.world = world
+        self.store = {}
+        self.writes = []
+
+    def __getitem__(self, k):
+        return LNum(self.store[k])
+
+    def __setitem__(self, k, v):
+        self.writes.append(k)
+        self.store[k] = v
+
+
+class LNum:
+    def __init__(self, tag):
+        self.tag = tag
+
+    def __mul__(self, o):
+        return LNum(('mul', self.tag, o))
+
+    def __add__(self, o):
+        return LNum(('add', self.tag, o))
+
+
+class LArr:
+    """ ghost array: shape (concrete) and provenance """
+    def __init__(self, shape, tag):
+        self.shape, self.tag = tuple(shape), tag
+
+    def __getitem__(self, idx):
+        if isinstance(idx, LArr):                                   # fancy index by a permutation
+            return LArr(self.shape, ('take', self.tag, idx.tag))
+        if isinstance(idx, slice):
+            n = len(range(*idx.indices(self.shape[0])))
+            return LArr((n,) + self.shape[1:], ('slice0', self.tag, (idx.start, idx.stop, idx.step)))
+        if isinstance(idx, tuple) and len(idx) == 2:
+            a, b = idx
+            if isinstance(a, slice) and a == slice(None) and isinstance(b, LArr):
+                return LArr(self.shape, ('take-columns', self.tag, b.tag))
+            if isinstance(a, slice) and a == slice(None) and isinstance(b, int):
+                return LArr((self.shape[0],), ('column', self.tag, b))
+            if isinstance(a, int) and isinstance(b, slice) and b == slice(None):
+                return LArr((self.shape[1],), ('row', self.tag, a))
+            if isinstance(a, slice) and isinstance(b, slice):
+                n0 = len(range(*a.indices(self.shape[0])))
+                n1 = len(range(*b.indices(self.shape[1])))
+                return LArr((n0, n1), ('block', self.tag, (a.start, a.stop), (b.start, b.stop)))
+        raise sym.Unsupported(f"ghost array index {idx!r}")
+
+    def __matmul__(self, other):
+        ok = len(self.shape) == 2 and self.shape[1] == other.shape[0]
+        sym.ctx()  # noqa
+        self_world_check('matmul-shapes-agree', ok)
+        return LArr((self.shape[0],) + other.shape[1:], ('matmul', self.tag, other.tag))
+
+    def __iter__(self):
+        for i in range(self.shape[0]):
+            yield ('elem', self.tag, i)
+
+    def __len__(self):
+        return self.shape[0]
+
+
+_CHECK = [None]
+
+
+def self_world_check(name, cond):
+    _CHECK[0].check('callee-pre:' + name, cond)
+
+
+class LBackend:
+    def __init__(self, world):
+        self.w = world
+
+    def square_matrix_from_dict(self, H, D=None, **k):
+        self.w['T_dim'] = D
+        self.w['T_keys'] = dict(H.store)
+        return LArr((D, D), 'T')
+
+    def eigh(self, T):
+        self.w['solver'] = 'eigh'
+        return LArr((T.shape[0],), 'val'), LArr(T.shape, 'vr')
+
+    def eig(self, T):
+        self.w['solver'] = 'eig'
+        return LArr((T.shape[0],), 'val'), LArr(T.shape, 'vr')
+
+    def eigs_which(self, val, which):
+        self.w['which'] = which
+        self_world_check('eigs_which-gets-the-eigenvalues', val.tag == 'val')
+        return LArr(val.shape, 'ind')
+
+    def to_tensor(self, lst, **k):
+        return LArr((len(lst),), ('vector', tuple(lst)))
+
+    def pinv(self, T, rcond=None, **k):
+        self.w['pinv_rcond'] = rcond
+        return LArr((T.shape[1], T.shape[0]), ('pinv', T.tag))
+
+
+class LCfg:
+    def __init__(self, world):
+        self.backend = LBackend(world)
+
+
+def lworld(V, lenV, happy):
+    w = {'lenV': lenV, 'happy': happy}
+    w['cfg'] = LCfg(w)
+    _CHECK[0] = V
+    return w
+
+
+def h_eigs(V, lenV, happy, hermitian, k, which):
+    from yastn.krylov._krylov import eigs
+    if not V.symbolic:
+        return
+    w = lworld(V, lenV, happy)
+    v0 = LV(w, 'v0')
+    applied = []
+    out = V.outcome(eigs, lambda x: applied.append(x) or LV(w, ('f', x.tag)), v0, k=k, which=which, ncv=lenV - 1 if lenV > 1 else 1, hermitian=hermitian)
+    m = lenV if happy else lenV - 1
+    if k > m:
+        return                                      # fewer Ritz pairs than requested: outside the contract (callers ask for k=1)
+    V.check('returns-normally', out.exc is None)
+    if out.exc is not None:
+        return
+    val, Y = out.value
+    ea = w['expand_args']
+    V.check('krylov-space-started-from-the-normalised-start-vector', ea['lenV'] == 1 and ea['first'] == ('scaled', 'v0') and ea['hermitian'] == hermitian)
+    V.check('projected-matrix-has-the-dimension-of-the-kept-basis', w['T_dim'] == m)
+    V.check('hermitian-flag-selects-the-dense-solver', w['solver'] == ('eigh' if hermitian else 'eig'))
+    V.check('requested-part-of-the-spectrum', w['which'] == which)
+    V.check('k-values-in-the-selected-order', val.shape == (k,) and val.tag == ('slice0', ('take', 'val', 'ind'), (None, k, None)))
+    basis = (('scaled', 'v0'),) + tuple(('krylov', j) for j in range(1, m))
+    V.check('k-Ritz-vectors', len(Y) == k)
+    for it, y in enumerate(Y):
+        V.check('Ritz-vector-combines-exactly-the-kept-basis-with-the-column-paired-to-its-value',
+                y.tag[0] == 'lincomb' and y.tag[1] == basis and isinstance(y.tag[2], LArr) and y.tag[2].tag == ('column', ('take-columns', 'vr', 'ind'), it)
+                and y.tag[2].shape == (m,))
+
+
+def h_eigs_zero(V):
+    from yastn.krylov._krylov import eigs
+    from yastn import YastnError
+    if not V.symbolic:
+        return
+    w = lworld(V, 2, False)
+    w['nonzero'] = False
+    out = V.outcome(eigs, lambda x: x, LV(w, 'v0'), k=1)
+    V.check('zero-start-vector-rejected', out.raised(YastnError))
+
+
+def h_lin_solver(V, lenQ, happy, hermitian):
+    from yastn.krylov._krylov import lin_solver
+    if not V.symbolic:
+        return
+    w = lworld(V, lenQ, happy)
+    v0, b = LV(w, 'v0'), LV(w, 'b')
+    tol = V.real('tol')
+    pinv_tol = V.real('pinv_tol')
+    f = lambda x: LV(w, ('f', x.tag))
+    out = V.outcome(lin_solver, f, b, v0, ncv=max(1, lenQ - 1), tol=tol, pinv_tol=pinv_tol, hermitian=hermitian)
+    V.check('returns-normally', out.exc is None)
+    if out.exc is not None:
+        return
+    vf, res = out.value
+    m = lenQ if happy else lenQ - 1
+    ea = w['expand_args']
+    r0 = ('scaled', ('sub', 'b', ('f', 'v0')))
+    V.check('krylov-space-of-the-initial-residual', ea['lenV'] == 1 and ea['first'] == r0 and ea['hermitian'] == hermitian and ea['tol'] is tol)
+    V.check('least-squares-matrix-is-(m+1)-by-m', w['T_dim'] == m + 1)
+    V.check('pseudo-inverse-cutoff-passed', w['pinv_rcond'] is pinv_tol)
+    V.check('happy-breakdown-closes-the-matrix-with-a-small-entry', (not happy) or (m, m - 1) in w['T_keys'])
+    basis = (r0,) + tuple(('krylov', j) for j in range(1, m))
+    amps = vf.tag[2] if vf.tag[0] == 'lincomb' else None
+    V.check('solution-is-the-guess-plus-a-combination-of-the-kept-basis', vf.tag[0] == 'lincomb' and vf.tag[1] == ('v0',) + basis and amps is not None
+            and len(amps) == 1 + m and amps[0] == 1)
+    # amplitudes: y = pinv(T[:m+1, :m]) @ (|r0|, 0, ..., 0)
+    if amps is not None and len(amps) == 1 + m:
+        V.check('amplitudes-solve-the-projected-least-squares-problem', all(a == ('elem', ('matmul', ('pinv', ('block', 'T', (None, m + 1), (None, m))), amps[1][1][2]), j)
+                                                                              for j, a in enumerate(amps[1:])) if m > 0 else True)
+    V.check('reported-residual-is-the-true-residual-of-the-returned-vector', isinstance(res, sym.Sym) or res == 0.0)
+    V.check('residual-evaluated-on-the-returned-vector', w.get('last_norm_of') == ('sub', ('f', vf.tag), 'b'))
+
+
 def units(tier):
     U = []
     for normalize in (False, True):
@@ -416,4 +646,12 @@ def units(tier):
         for ncv in (1, 2, 3, 4) + ((5, 6) if th else ()):
             for lenV in range(1, ncv + 2):
                 U.append(('h_expand', f"hermitian={herm},ncv={ncv},lenV={lenV}", dict(lenV=lenV, ncv=ncv, hermitian=herm)))
+    for herm in (False, True):
+        for happy in (False, True):
+            for lenV in range(1 if happy else 2, (7 if th else 5)):
+                for which in ('SR', 'LR', 'LM', 'SM'):
+                    for k in (1, 2) + ((3,) if th else ()):
+                        U.append(('h_eigs', f"hermitian={herm},happy={happy},lenV={lenV},k={k},which={which}", dict(lenV=lenV, happy=happy, hermitian=herm, k=k, which=which)))
+                U.append(('h_lin_solver', f"hermitian={herm},happy={happy},lenQ={lenV}", dict(lenQ=lenV, happy=happy, hermitian=herm)))
+    U.append(('h_eigs_zero', 'x', {}))
     return U
